@@ -137,7 +137,7 @@ def repo_objs(**cfg):
     return objs
 
 
-def build_driver(name, extra_srcs=(), wrap_clock=False, **cfg):
+def build_driver(name, extra_srcs=(), wrap_clock=False, wraps=(), **cfg):
     """build harness/drv_<name>.cpp against the repo objects; returns the executable path"""
     objs = repo_objs(**cfg)
     outdir = os.path.join(CACHE, "bin")
@@ -147,12 +147,14 @@ def build_driver(name, extra_srcs=(), wrap_clock=False, **cfg):
     if wrap_clock:
         srcs.append(os.path.join(HARNESS, "clock_wrap.cpp"))
     dobjs = [_compile(s, flags, os.path.join(CACHE, "obj")) for s in srcs]
-    key = sha(name, *[os.path.basename(o) for o in objs + dobjs], str(wrap_clock))
+    key = sha(name, *[os.path.basename(o) for o in objs + dobjs], str(wrap_clock), *wraps)
     exe = os.path.join(outdir, "%s-%s" % (name, key))
     if not os.path.exists(exe):
         link = ["g++"] + [f for f in flags if f.startswith("-fsanitize") or f in ("-fopenmp",)] + dobjs + objs + ["-o", exe + ".tmp"]
         if wrap_clock:
             link.append("-Wl,--wrap=_ZNSt6chrono3_V212system_clock3nowEv")
+        for w in wraps:
+            link.append("-Wl,--wrap=" + w)
         p = run(link)
         if p.returncode != 0:
             raise BuildError("link of driver %s failed:\n%s" % (name, p.stderr[-6000:]))
@@ -428,6 +430,23 @@ class Check:
         self.cov["axioms_reported_by_print_assumptions"] = res["axioms"]
         self.cov["theorems_closed_under_global_context"] = res["closed"]
         self.proof_res = res
+        if self.tier == "thorough" and res["built"]:
+            # independent re-check of the compiled property file and everything it depends on
+            try:
+                r = run(["timeout", "1500", "coqchk", "-o", "-silent", "-Q", ".", "SC", "SC.Properties_%s" % self.pid], cwd=COQ)
+                txt = r.stdout + r.stderr
+                ax = []
+                if "* Axioms:" in txt:
+                    seg = txt.split("* Axioms:", 1)[1].split("* Constants/Inductives relying on type-in-type", 1)[0]
+                    ax = [l.strip() for l in seg.split("\n") if l.strip() and l.strip() != "<none>"]
+                self.cov["coqchk"] = dict(exit=r.returncode, axioms=ax,
+                                          type_in_type="<none>" in txt.split("type-in-type:", 1)[-1][:40] if "type-in-type:" in txt else None,
+                                          unsafe_fixpoints="<none>" in txt.split("unsafe (co)fixpoints:", 1)[-1][:40] if "unsafe (co)fixpoints:" in txt else None,
+                                          positivity_assumed="<none>" in txt.split("positivity is assumed:", 1)[-1][:40] if "positivity is assumed:" in txt else None)
+                if r.returncode != 0:
+                    res["ok"] = False; res["log"] += "\ncoqchk failed:\n" + txt[-2000:]
+            except Exception as e:
+                self.cov["coqchk"] = dict(error=str(e)[:200])
         if not res["ok"]:
             log("PROOF CHECK FAILED for %s:\n%s" % (self.pid, res["log"]))
             if res["bad_axioms"]:
